@@ -114,7 +114,7 @@ def step (st : DState) (fs : List String) (impl : String) : DState × String × 
           let verdict := if !twf then "-" else
             if adv' > (maxInt32 : Int) then "VIOL advertised connection window exceeds 2^31-1"
             else if adv' < 0 then "VIOL advertised connection window negative"
-            else if !(adv' + (lim' / 4 : Nat) ≥ (lim' : Int) && (lim' = 0 || adv' > 0)) then
+            else if !connRestored adv' lim' then
               "VIOL connection window not restored to within a quarter of the configured window"
             else "ok"
           ({ st with tf := ts'.f, tadv := adv', twf := twf }, mo, verdict)
